@@ -164,7 +164,7 @@ pub fn run(ctx: &mut Ctx) -> Result<(), Violation> {
         0usize..=80,
     )
         .prop_map(|(key, cx, id, len)| Case { key: Hex(key), ctx: Hex(cx), id, len });
-    let n = ctx.tier.pick(100_000u32, 10_000_000);
+    let n = ctx.tier.pick(100_000u32, 40_000_000);
     let seed = ctx.seed;
     run_prop("C12", "kdf", seed, n, strat, &mut ctx.ev, |c, ev| {
         ev.eval(1);
